@@ -333,12 +333,17 @@ def table_campaign(run, tier, seed, n=None, want_mc=True):
     import concurrent.futures
     from .common import pmap
 
-    n = n or (60 if tier == "quick" else 600)
+    # 60 universes in both tiers (the thorough tier model-checks more of them for all slicings)
+    n = n or 60
     scheds = ("one", "three", "all", "mixed")
     args = [(seed * 100000 + i, ("default", "forest", "forget")[i % 3] if i % 6 else "default", scheds[i % 4]) for i in range(n)]
-    jobs = pmap(run_table_session, args, procs=16, chunk=1)
-    with concurrent.futures.ThreadPoolExecutor(max_workers=12) as ex:
-        verdicts = list(ex.map(lambda ij: validate_loop(run, ij[1], "G%d" % ij[0]), list(enumerate(jobs))))
+    # in batches of 60 universes (sessions in forked workers, then one single-worker monitor JVM per recorded loop)
+    jobs, verdicts = [], []
+    for b in range(0, len(args), 60):
+        bjobs = pmap(run_table_session, args[b:b + 60], procs=12, chunk=1)
+        with concurrent.futures.ThreadPoolExecutor(max_workers=10) as ex:
+            verdicts += list(ex.map(lambda ij: validate_loop(run, ij[1], "G%d" % (b + ij[0])), list(enumerate(bjobs))))
+        jobs += bjobs
     rejected = []
     for job, v in zip(jobs, verdicts):
         run.states += v.distinct
@@ -353,7 +358,7 @@ def table_campaign(run, tier, seed, n=None, want_mc=True):
                          "accepted": sum(v.accepted for v in verdicts), "traces": len(jobs)})
     nmc = 0
     if want_mc:
-        pick = [j for j in jobs if j["tid"].split("|")[2] != "forget"][:: (4 if tier == "quick" else 3)][: (8 if tier == "quick" else 120)]
+        pick = [j for j in jobs if j["tid"].split("|")[2] != "forget"][:: (4 if tier == "quick" else 2)][: (8 if tier == "quick" else 20)]
         with concurrent.futures.ThreadPoolExecutor(max_workers=4) as ex:
             results = list(ex.map(lambda ij: model_check_universe(run, ij[1]["universe"], 5000 + ij[0], 5 if tier == "quick" else 8), list(enumerate(pick))))
         for job, r in zip(pick, results):
